@@ -1,5 +1,6 @@
-// dcmc: stateless deviation-bounded exploration of a real s2n-quic-dc client and server (UDP
-// transport) on bach's deterministic executor, with a harness-owned simulated network. Decides C20.
+// dcmc: stateless deviation-bounded exploration of a real s2n-quic-dc client and server on bach's
+// deterministic executor: UDP transport over a harness-owned simulated network (families data,
+// vanish, jumbo) and TCP transport over a harness-owned in-memory connection (family tcp). Decides C20.
 //
 //   dcmc run C20 --out <result.json>     master: explores every family (VERIF_TIER=quick|thorough)
 //   dcmc worker                          one execution per stdin line (spawned by the master)
@@ -11,10 +12,11 @@ mod families;
 mod monitors;
 mod net;
 mod scenario;
+mod tcp;
 
 use families::Case;
 use mccore::*;
-use net::{parse_schedule, schedule_string, Schedule};
+use net::{parse_schedule, schedule_string, Action, Schedule};
 use scenario::*;
 use std::collections::{BTreeMap, HashSet, VecDeque};
 use std::io::{BufRead, BufReader, Write};
@@ -44,6 +46,9 @@ struct JobResult {
     hung: bool,
     panicked: bool,
     end_t: u64,
+    /// tcp family: wire bytes per direction and dc packet boundaries (where the split / cut sweeps go)
+    lens: [u64; 2],
+    bounds: [Vec<u64>; 2],
 }
 
 /// Everything the execution exposed, except datagram *contents*: the path secret is drawn from the
@@ -56,6 +61,9 @@ fn trace_hash(r: &Record) -> u128 {
     for d in &r.dgrams {
         s.push_str(&format!("d{},{},{},{},{};", d.idx, d.t, d.src, d.dst, d.len));
     }
+    for c in &r.calls {
+        s.push_str(&format!("c{},{},{},{},{},{};", c.idx, c.t, c.side, c.op, c.asked, c.got));
+    }
     for a in &r.app {
         s.push_str(&format!("a{},{},{},{:?};", a.t, a.side, a.half, a.ev));
     }
@@ -67,7 +75,8 @@ fn run_job(cases: &BTreeMap<String, Vec<Case>>, job: &Job) -> JobResult {
     let case = &cases[&job.family][job.case];
     let r = execute(&case.scn, &job.schedule);
     let violations = monitors::check(&case.scn, &job.schedule, &r);
-    JobResult { n_dgrams: r.dgrams.len(), hash: format!("{:032x}", trace_hash(&r)), outcome: monitors::outcome_class(&r), violations, crashed: false, hung: false, panicked: r.panicked.is_some(), end_t: r.end_t }
+    let n = if case.scn.tcp.is_some() { r.calls.len() } else { r.dgrams.len() };
+    JobResult { lens: r.wire_len, bounds: r.bounds.clone(), n_dgrams: n, hash: format!("{:032x}", trace_hash(&r)), outcome: monitors::outcome_class(&r), violations, crashed: false, hung: false, panicked: r.panicked.is_some(), end_t: r.end_t }
 }
 
 fn result_to_json(r: &JobResult) -> Json {
@@ -77,6 +86,10 @@ fn result_to_json(r: &JobResult) -> Json {
         .set("outcome", r.outcome.as_str())
         .set("end_t", r.end_t)
         .set("panicked", r.panicked)
+        .set("l0", r.lens[0])
+        .set("l1", r.lens[1])
+        .set("b0", Json::Arr(r.bounds[0].iter().map(|x| Json::Int(*x as i128)).collect()))
+        .set("b1", Json::Arr(r.bounds[1].iter().map(|x| Json::Int(*x as i128)).collect()))
         .set("violations", Json::Arr(r.violations.iter().map(|(c, d)| Json::obj().set("clause", c.as_str()).set("detail", d.as_str())).collect()))
 }
 
@@ -90,11 +103,25 @@ fn result_from_json(j: &Json) -> JobResult {
         violations: j.get("violations").and_then(|x| x.as_arr()).map(|a| a.iter().map(|v| (v.get("clause").and_then(|x| x.as_str()).unwrap_or("").to_string(), v.get("detail").and_then(|x| x.as_str()).unwrap_or("").to_string())).collect()).unwrap_or_default(),
         crashed: false,
         hung: false,
+        lens: [j.get("l0").and_then(|x| x.as_i128()).unwrap_or(0) as u64, j.get("l1").and_then(|x| x.as_i128()).unwrap_or(0) as u64],
+        bounds: [
+            j.get("b0").and_then(|x| x.as_arr()).map(|a| a.iter().filter_map(|v| v.as_i128()).map(|v| v as u64).collect()).unwrap_or_default(),
+            j.get("b1").and_then(|x| x.as_arr()).map(|a| a.iter().filter_map(|v| v.as_i128()).map(|v| v as u64).collect()).unwrap_or_default(),
+        ],
+    }
+}
+
+/// DCMC_FAMILIES=tcp,vanish restricts a run to some families (development aid; the result's family
+/// string says which ones ran)
+fn selected_families() -> Vec<&'static str> {
+    match std::env::var("DCMC_FAMILIES") {
+        Ok(v) if !v.is_empty() => families::FAMILIES.iter().cloned().filter(|f| v.split(',').any(|x| x == *f)).collect(),
+        _ => families::FAMILIES.to_vec(),
     }
 }
 
 fn load_cases(tier: Tier) -> BTreeMap<String, Vec<Case>> {
-    families::FAMILIES.iter().map(|f| (f.to_string(), families::family(f, tier))).collect()
+    selected_families().iter().map(|f| (f.to_string(), families::family(f, tier))).collect()
 }
 
 // ------------------------------------------------------------------------------------------
@@ -225,6 +252,76 @@ struct Shared {
     capped: bool,
 }
 
+/// tcp "bytes" mode: the wire offsets of one direction a deviation is tried at
+fn bytes_offsets(len: u64, bounds: &[u64], sweep: usize, around: u64, tail: bool) -> Vec<u64> {
+    let mut set = std::collections::BTreeSet::new();
+    if sweep == usize::MAX || sweep as u64 >= len {
+        set.extend(0..=len);
+    } else {
+        set.extend(0..=(sweep as u64).min(len));
+        if tail {
+            set.extend(len.saturating_sub(sweep as u64 / 4)..=len);
+        }
+        for b in bounds {
+            set.extend(b.saturating_sub(around)..=(*b + around).min(len));
+        }
+        // the stream's receive buffer is a 64 KiB ring (msg::recv::Message): where it wraps
+        let mut m = 65_536u64;
+        while m <= len {
+            set.extend(m - around..=(m + around).min(len));
+            m += 65_536;
+        }
+    }
+    set.into_iter().collect()
+}
+
+/// tcp "bytes" mode: the index of a deviation is a byte offset of one direction's wire stream
+fn children_bytes(case: &Case, parent: &Job, res: &JobResult) -> Vec<Job> {
+    let mut out = Vec::new();
+    if parent.schedule.iter().any(|(_, a)| a.is_permanent()) {
+        return out;
+    }
+    let depth = parent.schedule.len();
+    let last = parent.schedule.last().cloned();
+    let mk = |i: u64, a: &Action| {
+        let mut s = parent.schedule.clone();
+        s.push((i as u32, a.clone()));
+        Job { family: parent.family.clone(), case: parent.case, schedule: s, verify: None }
+    };
+    if depth < case.k {
+        for a in &case.menu {
+            let d = a.dir().unwrap_or(0) as usize;
+            let len = res.lens[d];
+            let (sweep, around) = if depth == 0 { (case.sweep, 2) } else { (case.sweep2, 1) };
+            if sweep == 0 {
+                continue;
+            }
+            for o in bytes_offsets(len, &res.bounds[d], sweep, around, depth == 0) {
+                // a boundary at 0 or at the end of the stream is no boundary
+                if o == 0 || o >= len {
+                    continue;
+                }
+                if let Some((li, la)) = &last {
+                    if (o as u32, a) <= (*li, la) {
+                        continue;
+                    }
+                }
+                out.push(mk(o, a));
+            }
+        }
+    }
+    if depth == 0 {
+        for a in &case.extra {
+            let d = a.dir().unwrap_or(0) as usize;
+            let len = res.lens[d];
+            for o in bytes_offsets(len, &res.bounds[d], case.sweep, 2, true) {
+                out.push(mk(o, a));
+            }
+        }
+    }
+    out
+}
+
 fn children(case: &Case, parent: &Job, n_dgrams: usize, baseline: usize) -> Vec<Job> {
     let k = if baseline <= case.k2_max_dgrams { case.k } else { case.k.min(1) };
     let mut out = Vec::new();
@@ -241,7 +338,7 @@ fn children(case: &Case, parent: &Job, n_dgrams: usize, baseline: usize) -> Vec<
                 out.push(Job { family: parent.family.clone(), case: parent.case, schedule: s, verify: None });
             }
         }
-        if depth == 0 {
+        if depth <= case.extra_after {
             for a in &case.extra {
                 let mut s = parent.schedule.clone();
                 s.push((i, a.clone()));
@@ -259,7 +356,7 @@ fn master(property: &str, out_path: &str) {
     }
     let tier = Tier::from_env();
     let cases = Arc::new(load_cases(tier));
-    let wall: f64 = std::env::var("DCMC_WALL_S").ok().and_then(|s| s.parse().ok()).unwrap_or(tier.pick(150.0, 900.0));
+    let wall: f64 = std::env::var("DCMC_WALL_S").ok().and_then(|s| s.parse().ok()).unwrap_or(tier.pick(240.0, 1500.0));
     let t0 = std::time::Instant::now();
     let mut queue = VecDeque::new();
     for (fam, cs) in cases.iter() {
@@ -379,7 +476,8 @@ fn master(property: &str, out_path: &str) {
                         }
                         if !g.capped {
                             let baseline = g.per_case.get(&(job.family.clone(), job.case)).map(|p| p.baseline_dgrams).unwrap_or(usize::MAX);
-                            for ch in children(case, &job, res.n_dgrams, baseline) {
+                            let chs = if case.scn.tcp.as_ref().map(|p| p.mode == TcpMode::Bytes).unwrap_or(false) { children_bytes(case, &job, &res) } else { children(case, &job, res.n_dgrams, baseline) };
+                            for ch in chs {
                                 g.queue.push_back(ch);
                             }
                         }
@@ -391,7 +489,7 @@ fn master(property: &str, out_path: &str) {
         }
     });
     let g = shared.0.lock().unwrap();
-    let mut rep = Report::new("dcmc", &format!("{}[{}]", property, families::FAMILIES.join("+")));
+    let mut rep = Report::new("dcmc", &format!("{}[{}]", property, selected_families().join("+")));
     rep.states = g.executions;
     rep.transitions = g.transitions;
     rep.executions = g.executions;
@@ -401,7 +499,7 @@ fn master(property: &str, out_path: &str) {
     if g.capped {
         rep.cap_hit = Some(format!("wall cap {:.0}s hit; the queue was cut (per-scenario executions in x_cases show what was completed)", wall));
     }
-    rep.completed_bound = Some("per scenario deviation bound k as listed in x_cases (every datagram index x {Drop,Dup,Delay} up to k deviations; vanish: BlackholeFrom and Forget at every index)".into());
+    rep.completed_bound = Some("per scenario deviation bound k as listed in x_cases (UDP: every datagram index x {Drop,Dup,Delay} up to k deviations; vanish: BlackholeFrom and Forget at every index; tcp calls mode: every socket call x {One,Half,AllBut1,Pend} up to k, connection closed / reset / secret forgotten at every call; tcp bytes mode: a segment boundary at every swept wire offset of either direction up to k, stream cut by EOF / RST after every swept offset)".into());
     rep.samples = g.samples.clone();
     let mut case_list = Vec::new();
     for (fam, cs) in cases.iter() {
@@ -414,6 +512,7 @@ fn master(property: &str, out_path: &str) {
                     .set("k", if pc.baseline_dgrams <= c.k2_max_dgrams { c.k } else { c.k.min(1) })
                     .set("menu", c.menu.iter().map(|a| a.code()).collect::<Vec<_>>())
                     .set("extra", c.extra.iter().map(|a| a.code()).collect::<Vec<_>>())
+                    .set("transport", if c.scn.tcp.is_some() { "tcp" } else { "udp" })
                     .set("baseline_datagrams", pc.baseline_dgrams)
                     .set("executions", pc.executions)
                     .set("datagram_decisions", pc.decisions)
@@ -422,11 +521,16 @@ fn master(property: &str, out_path: &str) {
         }
     }
     rep.extra.push(("x_cases".into(), Json::Arr(case_list)));
-    rep.extra.push(("x_datagram_decisions".into(), Json::Int(g.transitions as i128)));
+    // `transitions` = environment decisions taken: one per datagram (UDP families) or per answerable socket call (tcp)
+    let tcp_decisions: u64 = cases.iter().flat_map(|(fam, cs)| cs.iter().enumerate().map(move |(i, c)| (fam.clone(), i, c))).filter(|(_, _, c)| c.scn.tcp.is_some()).map(|(fam, i, _)| g.per_case.get(&(fam, i)).map(|p| p.decisions).unwrap_or(0)).sum();
+    let tcp_executions: u64 = cases.iter().flat_map(|(fam, cs)| cs.iter().enumerate().map(move |(i, c)| (fam.clone(), i, c))).filter(|(_, _, c)| c.scn.tcp.is_some()).map(|(fam, i, _)| g.per_case.get(&(fam, i)).map(|p| p.executions).unwrap_or(0)).sum();
+    rep.extra.push(("x_datagram_decisions".into(), Json::Int((g.transitions - tcp_decisions) as i128)));
+    rep.extra.push(("x_tcp_socket_call_decisions".into(), Json::Int(tcp_decisions as i128)));
+    rep.extra.push(("x_tcp_executions".into(), Json::Int(tcp_executions as i128)));
     rep.extra.push(("x_distinct_trace_hashes".into(), Json::Int(g.hashes.len() as i128)));
     rep.extra.push(("x_distinct_outcome_classes".into(), Json::Int(g.outcomes.len() as i128)));
     rep.extra.push(("x_determinism_reruns".into(), Json::Int(g.verified as i128)));
-    rep.extra.push(("x_not_covered".into(), Json::Str("TCP transport: bach has no TCP, the dc TCP path needs real tokio sockets and OS threads".into())));
+    rep.extra.push(("x_not_covered".into(), Json::Str("TCP: the tokio acceptor task (server::tokio::tcp::{manager,worker}) and the tokio socket glue are replaced by the harness's accept loop and in-memory connection; a TCP peer that vanishes silently (no FIN/RST, no keepalive) is an opt-in probe (DCMC_TCP_EXTRA=silent), see notes/wK.md".into())));
     // shortest schedule first, one violation per (scenario, clause)
     let mut vs = g.violations.clone();
     vs.sort_by_key(|(j, c, _)| (j.schedule.len(), j.family.clone(), j.case, c.clone(), schedule_string(&j.schedule)));
@@ -476,6 +580,14 @@ fn scenario_from_json(j: &Json) -> Option<Scenario> {
     let mut s = Scenario::new(g("request_bytes")? as usize, g("response_bytes")? as usize, g("read_buffer")? as usize, order, g("client_mtu")? as u16);
     s.server_mtu = g("server_mtu")? as u16;
     s.horizon_ms = g("horizon_ms")? as u64;
+    if j.get("transport").and_then(|x| x.as_str()) == Some("tcp") {
+        let mode = if j.get("tcp_mode")?.as_str()? == "calls" { TcpMode::Calls } else { TcpMode::Bytes };
+        let chunk = |k: &str| match g(k) {
+            Some(0) | None => usize::MAX,
+            Some(v) => v as usize,
+        };
+        s.tcp = Some(TcpParams { mode, cap: g("tcp_cap")? as usize, rx_chunk: chunk("tcp_rx_chunk"), tx_chunk: chunk("tcp_tx_chunk"), prelude: matches!(j.get("tcp_prelude"), Some(Json::Bool(true))), pause_ms: g("tcp_pause_ms").unwrap_or(0) as u64 });
+    }
     s.name = j.get("name")?.as_str()?.to_string();
     Some(s)
 }
@@ -490,7 +602,7 @@ fn replay_main(path: &str) {
     let schedule = parse_schedule(sched_s).expect("schedule");
     let r = execute(&scn, &schedule);
     let violations = monitors::check(&scn, &schedule, &r);
-    println!("replay: scenario {} schedule [{}] datagrams {} outcome {} trace {:032x}", scn.name, sched_s, r.dgrams.len(), monitors::outcome_class(&r), trace_hash(&r));
+    println!("replay: scenario {} schedule [{}] datagrams {} socket calls {} outcome {} trace {:032x}", scn.name, sched_s, r.dgrams.len(), r.calls.len(), monitors::outcome_class(&r), trace_hash(&r));
     if violations.is_empty() {
         println!("replay: no violation");
     } else {
@@ -499,6 +611,82 @@ fn replay_main(path: &str) {
         }
         std::process::exit(1);
     }
+}
+
+/// The real `stream::testing::Server::tcp()` (tokio acceptor, `server::tokio::tcp::worker`) on loopback; a
+/// real dc client stream whose bytes reach the server through a proxy that forwards at most `chunk` bytes
+/// every `gap_ms` (what a path with a small MSS does to a large first record).
+fn real_acceptor_probe(first: usize, chunk: usize, gap_ms: u64) {
+    use s2n_quic_dc::stream::testing::{Client, Server};
+    use tokio::io::{AsyncReadExt, AsyncWriteExt};
+    let rt = tokio::runtime::Builder::new_multi_thread().worker_threads(2).enable_all().build().unwrap();
+    rt.block_on(async move {
+        let server = Server::tcp().build();
+        let client = Client::builder().build();
+        let entry = client.handshake_with(&server).expect("path secret");
+        let upstream = server.local_addr();
+        let listener = tokio::net::TcpListener::bind("127.0.0.1:0").await.unwrap();
+        let proxy_addr = listener.local_addr().unwrap();
+        tokio::spawn(async move {
+            let (mut down, _) = listener.accept().await.unwrap();
+            let mut up = tokio::net::TcpStream::connect(upstream).await.unwrap();
+            up.set_nodelay(true).unwrap();
+            let (mut dr, mut dw) = down.split();
+            let (mut ur, mut uw) = up.split();
+            let c2s = async {
+                let mut buf = vec![0u8; 1 << 20];
+                let mut total = 0usize;
+                loop {
+                    let n = match dr.read(&mut buf).await {
+                        Ok(0) | Err(_) => break,
+                        Ok(n) => n,
+                    };
+                    let mut off = 0;
+                    while off < n {
+                        let m = chunk.min(n - off);
+                        if uw.write_all(&buf[off..off + m]).await.is_err() {
+                            println!("proxy: the server closed the connection after {} bytes were forwarded", total);
+                            return;
+                        }
+                        let _ = uw.flush().await;
+                        off += m;
+                        total += m;
+                        tokio::time::sleep(std::time::Duration::from_millis(gap_ms)).await;
+                    }
+                }
+                let _ = uw.shutdown().await;
+            };
+            let s2c = async {
+                let _ = tokio::io::copy(&mut ur, &mut dw).await;
+                let _ = dw.shutdown().await;
+            };
+            tokio::join!(c2s, s2c);
+        });
+        let env = s2n_quic_dc::stream::environment::tokio::Builder::new(s2n_quic_dc::testing::NoopSubscriber).with_threads(1).build().unwrap();
+        let sock = tokio::net::TcpStream::connect(proxy_addr).await.unwrap();
+        let mut stream = s2n_quic_dc::stream::client::tokio::connect_tcp_with(entry, sock, &env).await.expect("open");
+        let payload = crate::mccore::prf_vec(KEY_REQ, 0, first);
+        let server_side = async {
+            match tokio::time::timeout(std::time::Duration::from_secs(5), server.accept()).await {
+                Ok(Ok((mut s, _))) => {
+                    let mut got = Vec::new();
+                    let r = tokio::time::timeout(std::time::Duration::from_secs(10), s.read_to_end(&mut got)).await;
+                    println!("server: accepted the stream; read {} bytes, result {:?}, content {}", got.len(), r.map(|x| x.map_err(|e| e.kind())), if got == crate::mccore::prf_vec(KEY_REQ, 0, got.len()) { "ok" } else { "WRONG" });
+                }
+                Ok(Err(e)) => println!("server: accept failed: {:?}", e.kind()),
+                Err(_) => println!("server: NO stream was accepted within 5 s"),
+            }
+        };
+        let client_side = async {
+            let w = stream.write_all(&payload).await;
+            let sd = stream.shutdown().await;
+            println!("client: write_all({} bytes) -> {:?}, shutdown -> {:?}", first, w.map_err(|e| e.kind()), sd.map_err(|e| e.kind()));
+            let mut buf = [0u8; 16];
+            let r = tokio::time::timeout(std::time::Duration::from_secs(8), stream.read(&mut buf)).await;
+            println!("client: read -> {:?}", r.map(|x| x.map_err(|e| e.kind())));
+        };
+        tokio::join!(server_side, client_side);
+    });
 }
 
 fn parse_order(s: &str) -> Order {
@@ -527,11 +715,72 @@ fn main() {
         }
         Some("replay") => replay_main(&args[1]),
         Some("list") => {
-            for f in families::FAMILIES {
+            for f in selected_families() {
                 for (i, c) in families::family(f, Tier::from_env()).iter().enumerate() {
                     println!("{} {} {} k={} extra={:?}", f, i, c.scn.name, c.k, c.extra.iter().map(|a| a.code()).collect::<Vec<_>>());
                 }
             }
+        }
+        Some("probe-tcp") | Some("bench-tcp") => {
+            // dcmc probe-tcp <calls|bytes> <req> <resp> <rbuf> <order> <cap> <rx> <tx> <prelude 0|1> <pause_ms> [schedule]
+            let mode = if args[1] == "calls" { TcpMode::Calls } else { TcpMode::Bytes };
+            let num = |i: usize| -> usize {
+                let v: usize = args[i].parse().unwrap();
+                if v == 0 {
+                    usize::MAX
+                } else {
+                    v
+                }
+            };
+            let mut p = TcpParams::new(mode);
+            p.cap = num(6);
+            p.rx_chunk = num(7);
+            p.tx_chunk = num(8);
+            p.prelude = args[9] == "1";
+            p.pause_ms = args[10].parse().unwrap();
+            let scn = Scenario::new_tcp(args[2].parse().unwrap(), args[3].parse().unwrap(), args[4].parse().unwrap(), parse_order(&args[5]), p);
+            let sched = args.get(11).and_then(|s| parse_schedule(s)).unwrap_or_default();
+            if args[0] == "bench-tcp" {
+                let t0 = std::time::Instant::now();
+                let mut n = 0;
+                let mut h = 0;
+                for _ in 0..20 {
+                    let r = execute(&scn, &sched);
+                    n = r.calls.len();
+                    h = trace_hash(&r);
+                }
+                println!("{}: {:?} per execution, {} socket calls, trace {:032x}", scn.name, t0.elapsed() / 20, n, h);
+                return;
+            }
+            if std::env::var("DCMC_LOUD_PANIC").is_err() {
+                install_panic_hook();
+            }
+            let t0 = std::time::Instant::now();
+            let r = execute(&scn, &sched);
+            println!("{} [{}]: wall {:?} calls={} wire={:?} bounds={:?} app={} end_t={}us panicked={:?} trace={:032x} outcome={}", scn.name, schedule_string(&sched), t0.elapsed(), r.calls.len(), r.wire_len, r.bounds, r.app.len(), r.end_t, r.panicked.as_ref().map(|p| p.lines().take(4).collect::<Vec<_>>().join(" | ")), trace_hash(&r), monitors::outcome_class(&r));
+            let verbose = std::env::var("DCMC_VERBOSE").is_ok();
+            if verbose {
+                for c in &r.calls {
+                    println!("  #{} t={} side={} {} asked={} got={} dev={}", c.idx, c.t, c.side, c.op, c.asked, c.got, c.dev);
+                }
+            }
+            for a in &r.app {
+                if verbose || !matches!(a.ev, Ev::Read { bad: None, .. } | Ev::Write { .. }) {
+                    println!("  app t={} side={} {} {:?}", a.t, a.side, a.half, a.ev);
+                }
+            }
+            for (c, d) in monitors::check(&scn, &sched, &r) {
+                println!("  VIOLATION {}: {}", c, d);
+            }
+        }
+        Some("probe-accept") => {
+            // dcmc probe-accept <first_write_bytes> <chunk_bytes> <gap_ms>
+            // NOT part of the model checking (real sockets, real time): the repository's real tokio TCP
+            // acceptor behind a loopback proxy that forwards the client's bytes in chunks (notes/wK.md F2)
+            let first: usize = args[1].parse().unwrap();
+            let chunk: usize = args[2].parse().unwrap();
+            let gap: u64 = args[3].parse().unwrap();
+            real_acceptor_probe(first, chunk, gap);
         }
         Some("probe") | Some("bench") => {
             // dcmc probe <req> <resp> <rbuf> <order> <mtu> [schedule]
@@ -576,7 +825,7 @@ fn main() {
             }
         }
         _ => {
-            eprintln!("usage: dcmc run C20 --out f | worker | replay f | list | probe req resp rbuf order mtu [sched] | bench ...");
+            eprintln!("usage: dcmc run C20 --out f | worker | replay f | list | probe req resp rbuf order mtu [sched] | bench ... | probe-tcp calls|bytes req resp rbuf order cap rx tx prelude pause_ms [sched]");
             std::process::exit(2);
         }
     }
